@@ -89,6 +89,27 @@ class Report:
         self.obs.append(ob)
         return bool(ok)
 
+    def account_returns(self, rule, fi, accounted, what='result'):
+        """Every `return` (and generator `yield`) of an anchor function must be one the rules account for: a result
+        produced on a path no rule looks at (a shortcut / special case) is reported, naming the statement."""
+        import ast as _ast
+        from .astutil import stmts_in, guard_map, path_atoms, u
+        acc = {id(x) for x in accounted}
+        gm = None
+        extra = []
+        for s in stmts_in(fi.node.body):
+            if isinstance(s, _ast.Return) and id(s) not in acc:
+                extra.append(s)
+        if extra:
+            gm = guard_map(fi.node)
+        for s in extra:
+            self.add(rule, fi.site(s), f'{fi.name}: every {what} comes from a path the rules account for (no shortcut / special-case return)', False,
+                     expected='only the analysed return statements', found=f'return {u(s.value) if s.value is not None else ""} under {sorted(path_atoms(gm[s]))}', stmt=s)
+        if not extra:
+            self.add(rule, fi.site(), f'{fi.name}: every {what} comes from a path the rules account for (no shortcut / special-case return)', True,
+                     found=f'{len(acc)} return statements, all analysed', stmt=f'returns of {fi.name}')
+        return not extra
+
     def require(self, cond, reason):
         if not cond:
             raise Undecided(reason)
